@@ -33,7 +33,7 @@ PROPS['C07'] = dict(
 from contracts import iodrawer
 PROPS['C16'] = dict(
     units=list(iodrawer.HLOG_UNITS),
-    extra=[iodrawer.hlog_grammar_bounded],
+    extra=[iodrawer.hlog_grammar_bounded, iodrawer.hlog_history_bounded],
     level='proof',
     min_obligations=15,
     assumptions=[],
@@ -42,7 +42,7 @@ PROPS['C16'] = dict(
 
 PROPS['C14'] = dict(
     units=list(iodrawer.ILOG_UNITS),
-    extra=[iodrawer.ilog_grammar_bounded],
+    extra=[iodrawer.ilog_grammar_bounded, iodrawer.table_history_bounded],
     level='proof',
     min_obligations=100,
     assumptions=[],
@@ -51,7 +51,7 @@ PROPS['C14'] = dict(
 
 PROPS['C15'] = dict(
     units=list(iodrawer.TRACE_UNITS),
-    extra=[iodrawer.trace_grammar_bounded],
+    extra=[iodrawer.trace_grammar_bounded, iodrawer.table_history_bounded],
     level='proof',
     min_obligations=100,
     assumptions=[],
